@@ -676,8 +676,20 @@ def run_batch(progs, workdir, tag="b", want_run=True):
     renders = write_module(root, progs)
     env = dict(GOENV)
     dropped = {}
+    hung = False
     for attempt in range(4):
-        p = sh([tools["wire"], "gen", "./..."], cwd=root, env=env, timeout=900)
+        try:
+            p = sh([tools["wire"], "gen", "./..."], cwd=root, env=env, timeout=240, mem_gb=10)
+        except subprocess.TimeoutExpired:
+            # the tool does not finish on the batch: find the packages it hangs on, one by one
+            hung = True
+            p = subprocess.CompletedProcess([], 124, "", "timeout: wire gen ./... did not finish within 240s")
+            per, loose = {}, []
+            break
+        if p.returncode < 0 or "out of memory" in p.stderr or "cannot allocate memory" in p.stderr:
+            hung = True
+            per, loose = {}, []
+            break
         per, loose = classify_stderr(p.stderr)
         if p.returncode == 0 or per or "wrote" in p.stderr or "panic:" in p.stderr or "goroutine " in p.stderr:
             break
@@ -690,21 +702,21 @@ def run_batch(progs, workdir, tag="b", want_run=True):
             dropped[i] = "\n".join(l for l in p.stderr.split("\n") if ("/c%d/" % i) in l)[:600]
             shutil.rmtree(os.path.join(root, "c%d" % i), ignore_errors=True)
     crashed = {}
-    if "goroutine " in p.stderr and ("panic:" in p.stderr or "fatal error:" in p.stderr):
+    if hung or ("goroutine " in p.stderr and ("panic:" in p.stderr or "fatal error:" in p.stderr)):
         # the tool crashed on the whole pattern: run every package on its own to find out which ones do it
         from concurrent.futures import ThreadPoolExecutor
 
         def one(i):
             try:
-                q = sh([tools["wire"], "gen", "./c%d/app" % i], cwd=root, env=env, timeout=20)
+                q = sh([tools["wire"], "gen", "./c%d/app" % i], cwd=root, env=env, timeout=20, mem_gb=4)
                 return i, q.returncode, q.stderr
             except subprocess.TimeoutExpired:
                 return i, 124, "timeout: wire gen did not finish within 20s"
         per = {}
         with ThreadPoolExecutor(max_workers=16) as ex:
             for i, rc, err in ex.map(one, [i for i in range(len(renders)) if i not in dropped]):
-                if "goroutine " in err or rc == 124 or rc == 2:
-                    crashed[i] = err[:1500]
+                if "goroutine " in err or rc == 124 or rc == 2 or rc < 0:
+                    crashed[i] = err[:1500] or "killed (memory limit)"
                 pp, _ = classify_stderr(err)
                 per.update(pp)
     obs = []
